@@ -216,6 +216,8 @@ where
     /// Returns [Err] if the stream fails to close gracefully.
     pub async fn finish(mut self) -> Result<()> {
         self.flush_batch()?;
+        // Frames queued in the write buffer must reach the transport before it is finished
+        self.stream.flush().await?;
         self.stream.finish().await
     }
 
